@@ -955,8 +955,10 @@ def _storage_format(model, rep):
                 continue
             seen.add(nm)
             n += 1
-            conv = any(isinstance(c, ast.Call) and isinstance(
-                c.func, ast.Attribute) and c.func.attr == "tocsr"
+            conv = any(isinstance(c, ast.Call) and ((isinstance(
+                c.func, ast.Attribute) and c.func.attr == "tocsr")
+                or src(c.func).split(".")[-1] in ("csr_matrix",
+                                                  "csr_array"))
                 for d in chain for c in ast.walk(d.value))
             tested = any(
                 (isinstance(y, ast.Attribute) and y.attr in (
@@ -1362,6 +1364,8 @@ MUTANTS = [
       "\n"), None),
 ]
 TWINS = [
+    ("enforce: non-CSR input converted with the constructor",
+     (_U, "        Aout = A.tocsr()\n", "        Aout = sp.csr_matrix(A)\n")),
     ("penalize: default scale from the largest absolute diagonal",
      (_U, "        scale = np.linalg.norm(d[D], np.inf) if len(D) > 0 else "
       "0.", "        scale = float(np.abs(d[D]).max()) if len(D) > 0 else "
